@@ -21,7 +21,7 @@ func init() {
 			ruleConcatRank(c, "R2")
 			ruleRetroactive(c, "R3")
 			ruleWrapSites(c, "R4")
-			ruleExhaustiveWalks(c, "R3w", []string{"tree.(*node).applyMiddleware"}, "the retroactive application visits every node")
+			ruleExhaustiveWalks(c, "R3w", []*ssa.Function{c.P.MustFunc("tree.(*Tree).ApplyMiddleware")}, "the retroactive application visits every node")
 		},
 	})
 }
@@ -103,7 +103,7 @@ func msRank(c *Ctx, t *an.Term) (int, string) {
 
 // ruleConcatRank is C09.R2.
 func ruleConcatRank(c *Ctx, rule string) {
-	c.R.Rule(c.R.Property+"."+rule, 7, "route middlewares are innermost, then Prefix/Resource, then Router.Use; Use appends new middlewares after (outside) the old ones")
+	c.R.Rule(c.R.Property+"."+rule, 4, "route middlewares are innermost, then Prefix/Resource, then Router.Use; Use appends new middlewares after (outside) the old ones")
 	targets := map[string]int{"tree.(*Tree).Add": 3, "mux.(*Router).Handle": 3, "mux.(*Router).Prefix": 2, "mux.(*Router).Resource": 2}
 	for _, f := range c.libFuncs() {
 		if !strings.HasPrefix(c.fk(f), "mux.") {
